@@ -193,7 +193,7 @@ theorem dirLeafX : LeafX DirInv where
   emit := fun o => by view_same
   emitRep := fun c i a b d => by unfold emitRep; view_same
   emitEv := fun w t p x => by unfold emitEv; view_same
-  setK := fun k => by unfold setK; view_same
+  runK := fun f _ => by unfold runK; view_same
   setStatus := fun u st => pres_of_view (modW_view _ _ (by intro w; simp))
   trySetNp := dir_trySetNp
   spawnAdopt := dir_spawnAdopt
